@@ -10,7 +10,6 @@ use super::context::{
     Config, Error, Node, ValidationContext, ValidationState,
 };
 use super::utilities::{make_ede, map_dname, ttl_for_sig};
-use crate::base::cmp::CanonicalOrd;
 use crate::base::iana::ExtendedErrorCode;
 use crate::base::iana::class::Class;
 use crate::base::name::ToName;
@@ -603,9 +602,11 @@ impl Group {
         //   equal to the time listed in the RRSIG RR's Expiration field.
         // - The validator's notion of the current time MUST be greater than or
         //   equal to the time listed in the RRSIG RR's Inception field.
-        if ts_now.canonical_gt(&rrsig.expiration())
-            || ts_now.canonical_lt(&rrsig.inception())
-        {
+        //
+        // The times are serial numbers (RFC 4034, Section 3.1.5).
+        let in_validity_period =
+            ts_now <= rrsig.expiration() && ts_now >= rrsig.inception();
+        if !in_validity_period {
             return false;
         }
 
@@ -655,9 +656,9 @@ impl Group {
         // Section 5.3.1). Only verdicts for a signature that is within its
         // validity period may be taken from, or stored in, the cache.
         let ts_now = Timestamp::now();
-        if ts_now.canonical_gt(&sig.data().expiration())
-            || ts_now.canonical_lt(&sig.data().inception())
-        {
+        let in_validity_period = ts_now <= sig.data().expiration()
+            && ts_now >= sig.data().inception();
+        if !in_validity_period {
             return false;
         }
 
